@@ -138,17 +138,26 @@ func c17(c *core.Ctx, r *core.Report) {
 				return isMethod(t, testingPkg, "T", "Failed") || an.IsFunc(t, metricsPkg, "Result")
 			})
 		// the value flows unchanged to the accumulators
+		// the duration is the function's own int64 parameter, whatever it is called
+		durParam := func(fn *ssa.Function) ssa.Value {
+			for _, p := range fn.Params {
+				if b, ok := p.Type().Underlying().(*types.Basic); ok && b.Kind() == types.Int64 {
+					return p
+				}
+			}
+			return nil
+		}
 		rec := c.MustFn(ppkg, "Stats.Record")
 		for _, call := range an.AllCalls(rec) {
 			if isMethod(an.Callee(call), progressPkg, "DurationStats", "Record") {
-				r.Check(an.D().Of(call.Common().Args[1]) == "$nanoseconds", "Stats.Record#value", an.Pos(c, call), "duration passed on unchanged", "Stats.Record passes "+an.D().Of(call.Common().Args[1])+" instead of the duration")
+				r.Check(an.Strip(call.Common().Args[1]) == durParam(rec), "Stats.Record#value", an.Pos(c, call), "duration passed on unchanged", "Stats.Record passes "+an.D().Of(call.Common().Args[1])+" instead of the duration")
 			}
 		}
 		dr := c.MustFn(ppkg, "DurationStats.Record")
 		for _, call := range an.AllCalls(dr) {
 			if isMethod(an.Callee(call), progressPkg, "IterationDurations", "Add") {
 				hotClass, _ := progressRoles(c)
-				r.Check(an.D().Of(call.Common().Args[1]) == "$nanoseconds" && strings.HasSuffix(an.D().Of(call.Common().Args[0]), "."+fieldOfClass(hotClass)), "DurationStats.Record#value", an.Pos(c, call), "recorded into the per-period accumulator unchanged", "DurationStats.Record adds "+an.D().Of(call.Common().Args[1])+" to "+an.D().Of(call.Common().Args[0]))
+				r.Check(an.Strip(call.Common().Args[1]) == durParam(dr) && strings.HasSuffix(an.D().Of(call.Common().Args[0]), "."+fieldOfClass(hotClass)), "DurationStats.Record#value", an.Pos(c, call), "recorded into the per-period accumulator unchanged", "DurationStats.Record adds "+an.D().Of(call.Common().Args[1])+" to "+an.D().Of(call.Common().Args[0]))
 			}
 		}
 		add := c.MustFn(ppkg, "IterationDurations.Add")
@@ -159,7 +168,7 @@ func c17(c *core.Ctx, r *core.Report) {
 			d := an.D().Of(op.Call.Common().Args[1])
 			switch op.Field.Name() {
 			case "sum":
-				r.Check(d == "$nanoseconds", "IterationDurations.Add#sum", an.Pos(c, op.Call), "sum += duration", "sum is increased by "+d)
+				r.Check(an.Strip(op.Call.Common().Args[1]) == durParam(add), "IterationDurations.Add#sum", an.Pos(c, op.Call), "sum += duration", "sum is increased by "+d)
 			case "count":
 				r.Check(d == "1", "IterationDurations.Add#count", an.Pos(c, op.Call), "count += 1", "count is increased by "+d)
 			default:
